@@ -16,7 +16,7 @@ namespace DV.C03
 structure World where
   cur : ISet
   snap : Option ISet
-  deriving Repr
+  deriving DecidableEq, Repr
 
 def World.init : World := { cur := DV.C03.init, snap := none }
 
@@ -38,7 +38,7 @@ inductive WObs where
   | ok
   | skip
   | view (snap : ISet) (eq : Bool)
-  deriving Repr
+  deriving DecidableEq, Repr
 
 def stepW (w : World) : WOp → World × WObs
   | .op o => let (s, ob) := step w.cur o; ({ w with cur := s }, .base w.cur ob)
